@@ -64,7 +64,8 @@ class RefVT:
     def __init__(s, w, h):
         s.w, s.h = w, h
         s.attr = (None, None, 0)          # fg, bg, flags: bold 1, underline 2, blink 4, reverse 8
-        s.g = [[(32, (None, None, 0))] * w for _ in range(h)]
+        s.g = [[(32, (None, None, 0, 0))] * w for _ in range(h)]   # (char, ANY or (fg, bg, flags, charset))
+        s.cs = [0, -1, 0]                 # G0, G1 (0 ASCII, 1 DEC special graphics, -1 never designated), shift
         s.x = s.y = 0
         s.pending = False                 # last-column flag
         s.cleared_by = None               # command kind that cleared the flag since the last printable
@@ -104,6 +105,8 @@ class RefVT:
         partial = not (s.top == 0 and s.bot == s.h - 1)
         if k in ("lf", "ri", "ht"):
             return s.pending
+        if k == "so":
+            return s.cs[1] < 0            # power-up G1 differs between terminals
         if k == "cuu":
             return partial and s.top <= s.y and s.y - s.one(c[1]) < s.top
         if k == "cud":
@@ -118,7 +121,7 @@ class RefVT:
                 s.x = 0
                 s.pending = False
                 s.index()
-            s.g[s.y][s.x] = (c[1], s.attr)
+            s.g[s.y][s.x] = (c[1], s.attr + (s.cs[0] if s.cs[2] == 0 else s.cs[1],))
             if s.x == s.w - 1:
                 s.pending = True
             else:
@@ -248,6 +251,12 @@ class RefVT:
         elif k == "ht":
             s.x = min(s.w - 1, (s.x // 8 + 1) * 8)
             s.unpend(k)
+        elif k == "so":
+            s.cs[2] = 1
+        elif k == "si":
+            s.cs[2] = 0
+        elif k == "desig":
+            s.cs[0 if c[1] == 0 else 1] = 1 if c[2] == 48 else 0
         elif k == "dsr":
             if c[1] == 5:
                 s.replies.append("\x1b[0n")
@@ -258,7 +267,7 @@ class RefVT:
 
 
 CMD_CODE = {"ch": 1, "cr": 2, "lf": 3, "bs": 4, "ri": 5, "cup": 6, "cuu": 7, "cud": 8, "cuf": 9, "cub": 10, "el": 11,
-            "ed": 12, "ich": 13, "dch": 14, "il": 15, "dl": 16, "stbm": 17, "sgr": 18, "dsr": 19, "ht": 20}
+            "ed": 12, "ich": 13, "dch": 14, "il": 15, "dl": 16, "stbm": 17, "sgr": 18, "dsr": 19, "ht": 20, "so": 21, "si": 22, "desig": 23}
 CSI_FINAL = {"cup": b"H", "cuu": b"A", "cud": b"B", "cuf": b"C", "cub": b"D", "el": b"K", "ed": b"J", "ich": b"@",
              "dch": b"P", "il": b"L", "dl": b"M", "stbm": b"r", "sgr": b"m", "dsr": b"n"}
 
@@ -268,8 +277,10 @@ def enc_cmd(c):
     k = c[0]
     if k == "ch":
         return bytes([c[1]])
-    if k in ("cr", "lf", "bs", "ri", "ht"):
-        return {"cr": b"\r", "lf": b"\n", "bs": b"\b", "ri": b"\x1bM", "ht": b"\t"}[k]
+    if k in ("cr", "lf", "bs", "ri", "ht", "so", "si"):
+        return {"cr": b"\r", "lf": b"\n", "bs": b"\b", "ri": b"\x1bM", "ht": b"\t", "so": b"\x0e", "si": b"\x0f"}[k]
+    if k == "desig":
+        return b"\x1b" + (b"(" if c[1] == 0 else b")") + bytes([c[2]])
     ps = c[1] if k == "sgr" else c[1:]
     out = b"\x1b[" + b";".join(b"" if n < 0 else str(n).encode() for n in ps) + CSI_FINAL[k]
     if k in ("il", "dl"):
@@ -308,7 +319,7 @@ def colour_matches(num, colors, bold, ref, is_fg):
 
 def attr_matches(a, ra):
     """the emulator's rendition (observed AttrSpec numbers or None) against a reference rendition (fg, bg, flags)"""
-    rfg, rbg, rfl = ra
+    rfg, rbg, rfl = ra[:3]
     if a is None:
         return (rfg, rbg, rfl) == (None, None, 0)
     fg, bg, colors, bold, ul, blink, so = a
@@ -379,7 +390,8 @@ class Reader:
             row = []
             for _ in range(self.n()):
                 ch = self.n()
-                row.append((ch, self.rattr()))
+                a = self.rattr()
+                row.append((ch, a if a == ANY else a + (self.n(),)))
             out.append(row)
         return out
 
@@ -418,7 +430,7 @@ class C15(core.Check):
         "terminal sizes >= 1x1; util.get_encoding() is one of 'utf8', 'utf-8', 'ascii'",
         "the widget callbacks (respond, set_title, beep, leds) do not raise and do not re-enter the canvas",
         "CSI parameters of more than 4300 digits are not generated (the model treats them like the code: int() fails -> default); vterm_refines_vt100 assumes parameters below 2^4000",
-        "vterm_refines_vt100 stops before the points on which VT100-family terminals differ (LF/RI/HT with the last-column flag set, CUU/CUD across a margin of a partial region)",
+        "vterm_refines_vt100 stops before the points on which VT100-family terminals differ (LF/RI/HT with the last-column flag set, CUU/CUD across a margin of a partial region, SO before G1 was designated)",
         "the Terminal widget's pty / process handling and key translation are not covered",
     ]
 
@@ -642,8 +654,9 @@ class C15(core.Check):
                 for _ in range(rd.n()):
                     kd, ra_, rb_ = rd.n(), rd.n(), rd.n()
                     replies.append("\x1b[0n" if kd == 5 else "\x1b[%d;%dR" % (ra_, rb_))
+                csst = [rd.n(), rd.n(), rd.n()]
                 self._ref_stash = {"key": core.h(case), "n": n, "g": g, "x": x, "y": y, "pend": pend, "top": top, "bot": bot,
-                                   "attr": attr, "sb": sb, "known": known, "replies": replies}
+                                   "attr": attr, "sb": sb, "known": known, "replies": replies, "cs": csst}
             return {"steps": steps, "final": f, "chunk_same": True}
         except IndexError:
             return {"malformed": ints[:30]}
@@ -750,6 +763,8 @@ class C15(core.Check):
                     return f"cell ({x},{y}) holds {bytes(ch)!r}, the reference has {chr(rc)!r}"
                 if ra != ANY and not attr_matches(a, ra):
                     return f"cell ({x},{y}) rendition {a}, the reference has {ra}"
+                if ra != ANY and cs != ra[3]:
+                    return f"cell ({x},{y}) character set {cs}, the reference has {ra[3]}"
         if final["cur"] != [r.x, r.y]:
             return f"cursor at {final['cur']}, the reference has {[r.x, r.y]}"
         if final["region"] != [r.top, r.bot]:
@@ -770,8 +785,8 @@ class C15(core.Check):
         # the extracted Coq reference must tell the same story as this one
         st = self._ref_stash
         if st and st.get("key") == core.h(case):
-            mine = [n, r.g, r.x, r.y, int(r.pending), r.top, r.bot, r.sb, int(r.sb_known), r.replies]
-            coq = [st["n"], st["g"], st["x"], st["y"], st["pend"], st["top"], st["bot"], st["sb"], st["known"], st["replies"]]
+            mine = [n, r.g, r.x, r.y, int(r.pending), r.top, r.bot, r.sb, int(r.sb_known), r.replies, r.cs]
+            coq = [st["n"], st["g"], st["x"], st["y"], st["pend"], st["top"], st["bot"], st["sb"], st["known"], st["replies"], st["cs"]]
             if core.canon(mine) != core.canon(coq):
                 msgs.append("reference models disagree: Model/VT100Ref.v (extracted) and the Python reference VT100")
             self._ref_stash = {}
@@ -1092,7 +1107,8 @@ class C15(core.Check):
                         ps += [rng.choice([38, 48]), 2] + [rng.choice([0, 1, 2, 3, 128, 255]) for _ in range(3)]
                 c = ["sgr", ps]
             elif k == 14:
-                c = rng.choice([["dsr", 5], ["dsr", 6], ["ht"], ["ht"]])
+                c = rng.choice([["dsr", 5], ["dsr", 6], ["ht"], ["ht"], ["so"], ["si"], ["desig", rng.choice([0, 1]), rng.choice([48, 66])],
+                                ["desig", 1, 48]])
             else:
                 c = ["ch", rng.choice(b"abc")]
             if r.ambiguous(c):
@@ -1174,13 +1190,17 @@ C15.level_text = (
     "matches ESC[0n | ESC[?6c | ESC[[1-9][0-9]*;[1-9][0-9]*R.  chunking_irrelevant: feeding a stream in pieces equals "
     "feeding it whole anywhere in a session.  scrollback_in_order(_scroll) and scrolled_back_view: a scroll appends "
     "exactly the departing top line, the scrollback only grows at its end, the scrolled-back view shows rows "
-    "[len-k, len-k+height) of scrollback ++ screen.  vterm_refines_vt100 (now a THEOREM, no longer oracle-only): for any "
-    "command list over printable text with autowrap, CR LF BS HT, CUP CUU CUD CUF CUB, EL ED, ICH DCH IL DL, DECSTBM, RI, "
-    "classic SGR and DSR, any size, parameters below 2^4000, the emulator model fed with the byte encoding ends with "
-    "screen contents, renditions, cursor and scrolling region equal to the independent reference VT100 (parser lemma on "
-    "the decimal encoding + one simulation lemma per command + induction).  ORACLE / CORRESPONDENCE ONLY: the palette "
-    "(38;5;n) and direct (38;2;r;g;b) colour forms and replies/scrollback of the reference (implementation, extracted "
-    "emulator model, extracted Coq reference and an independent Python reference run against each other); the tie of the "
+    "[len-k, len-k+height) of scrollback ++ screen.  vterm_refines_vt100 (THEOREM): for any command list over printable "
+    "text with autowrap, CR LF BS HT, CUP CUU CUD CUF CUB, EL ED, ICH DCH IL DL, DECSTBM, RI, classic SGR, DSR and the "
+    "character sets (SO/SI, ESC ( 0/B, ESC ) 0/B), any size, parameters below 2^4000, the emulator model fed with the "
+    "byte encoding ends with screen contents (characters, renditions, character set of every cell), cursor and scrolling "
+    "region equal to the independent reference VT100, its replies are exactly the reference's (DSR 5 / cursor position), "
+    "and the scrollback holds exactly the lines that left the top of the reference's screen, in order (parser lemma on "
+    "the decimal encoding + one simulation lemma per command + induction).  Corollaries: any_csi_is_survived, "
+    "cut_anywhere (UTF-8 / escape state independent of chunk boundaries), scrolled_view_cursor_inside.  ORACLE / "
+    "CORRESPONDENCE ONLY: the palette (38;5;n) and direct (38;2;r;g;b) colour forms (implementation, extracted emulator "
+    "model, extracted Coq reference and an independent Python reference run against each other); the AttrSpec abstraction "
+    "of the model (swept against the real AttrSpec: complete for depths 1/16/256 in the thorough tier); the tie of the "
     "hand model to vterm.py (exact whole-state correspondence on ~9k cases per quick run).")
 C15.level_note = (
     "Trusted: Coq kernel, py2v (csi_table / constrain_coords / DEC map regenerated each run), extraction + driver, the "
